@@ -60,7 +60,8 @@ Theorem C09_fs_walk_equiv_nodelim : forall (bk : bucket) cursor prefix maxres,
   asorted bk ->
   list_walk [] cursor prefix maxres (fs_entries bk)
   = (firstn maxres (filter (sel cursor prefix) (map fst bk)), [],
-     (maxres <? length (filter (sel cursor prefix) (map fst bk)))%nat).
+     (maxres <? length (filter (sel cursor prefix) (map fst bk)))%nat,
+     last_opt (firstn maxres (filter (sel cursor prefix) (map fst bk)))).
 Proof. exact fs_walk_equiv_nodelim. Qed.
 Print Assumptions C09_fs_walk_equiv_nodelim.
 
@@ -150,9 +151,9 @@ Theorem C09_old_walk_order_refuted :
   /\ map fst c09_bk = [c09_foo_bar_x; c09_foo_y]
   /\ fs_sort_walk (map fst c09_bk) = [c09_foo_y; c09_foo_bar_x]
   /\ fs_sort (map fst c09_bk) = [c09_foo_bar_x; c09_foo_y]
-  /\ list_walk [] [] c09_foo_dash 1000 (fs_entries_walk c09_bk) = ([], [], false)
-  /\ list_walk [] [] c09_foo_dash 1000 (fs_entries c09_bk) = ([c09_foo_bar_x], [], false)
-  /\ list_walk [] [] c09_foo_dash 1000 (mem_entries c09_bk) = ([c09_foo_bar_x], [], false)
+  /\ list_walk [] [] c09_foo_dash 1000 (fs_entries_walk c09_bk) = ([], [], false, None)
+  /\ list_walk [] [] c09_foo_dash 1000 (fs_entries c09_bk) = ([c09_foo_bar_x], [], false, Some c09_foo_bar_x)
+  /\ list_walk [] [] c09_foo_dash 1000 (mem_entries c09_bk) = ([c09_foo_bar_x], [], false, Some c09_foo_bar_x)
   /\ list_proj (snd (handle_fs c09_state c09_list)) = ([c09_foo_bar_x], [], None)
   /\ handle_fs c09_state c09_list = handle c09_state c09_list.
 Proof. exact old_walk_order_refuted. Qed.
@@ -236,4 +237,18 @@ Proof.
   split; [vm_compute; reflexivity|].
   destruct (get_bucket c09_ok_state c09_bucket) as [bk|] eqn:E; [|vm_compute in E; discriminate].
   exists bk. split; [reflexivity|]. vm_compute in E. injection E as <-. split; vm_compute; reflexivity.
+Qed.
+
+(* with a delimiter and a page of one, the page token is the collapsed prefix "a/" on the file
+   store as on the memory store, and the page resumed from it skips everything below a/ *)
+Example C09_delimiter_token_nonvacuous :
+  list_proj (snd (handle_fs c09_ok_state (RList c09_bucket [] [47]%N None (Some [49]%N))))
+  = ([], [[97; 47]%N], Some [97; 47]%N)
+  /\ list_proj (snd (handle_fs c09_ok_state (RList c09_bucket [] [47]%N (Some [97; 47]%N) (Some [49]%N))))
+     = ([[101]%N], [], None)
+  /\ handle_fs c09_ok_state (RList c09_bucket [] [47]%N (Some [97; 47]%N) (Some [49]%N))
+     = handle c09_ok_state (RList c09_bucket [] [47]%N (Some [97; 47]%N) (Some [49]%N)).
+Proof.
+  split; [vm_compute; reflexivity|]. split; [vm_compute; reflexivity|].
+  apply stores_equivalent. apply state_ok_run. apply state_ok_init.
 Qed.
